@@ -1,6 +1,7 @@
 import OnlVerif.Lemmas.MultiQueueRun
 import OnlVerif.Lemmas.StampWfqOrd
 import OnlVerif.Lemmas.StampVc
+import OnlVerif.Lemmas.GenSchedTx
 /-!
 # C12 (multi-queue half) — SP, RR, WRR and DRR are work-conserving, non-preemptive, rate-exact and per-flow FIFO
 
@@ -488,4 +489,27 @@ example : WFQ.Pos wcfg := by
     · cases h
 
 end StampHalf
+
+/-! ### The source, re-translated on every run, *is* the transmission time of both LTSs (bridge theorems)
+
+`Generated/SchedTx.lean` is rewritten by `py2lean` from the current `onl/scheduler/base.py` before this file is compiled: the
+argument of the one `yield self.env.timeout(…)` of `Scheduler.send_packet`, which all six schedulers use.  "transmits one packet
+at a time for exactly 8*size/rate" is a clause of C12 (the stamp rules of WFQ / VirtualClock are C14's).  Over exact rationals. -/
+
+/-- **The transmission time in `Scheduler.send_packet` as written in the source is the model's `txTime`** = `8·size/rate`
+(stamp family: WFQ, VirtualClock). -/
+theorem send_delay_generated_eq_model {σ : Type} (d : Sched ℚ σ) (p : SPkt) :
+    Gen.Scheduler.send_delay { rate := d.rate } p.size = Stamp.txTime d p :=
+  GenSchedTx.send_delay_eq d p
+
+/-- **The same for the multi-queue family** (SP, RR, WRR, DRR): the translated delay is `MQ.txTime` = `8·size/rate`. -/
+theorem mq_send_delay_generated_eq_model {κ : Type} (sc : MQ.Sched ℚ κ) (p : MPkt) :
+    Gen.Scheduler.send_delay { rate := sc.rate } p.size = MQ.txTime sc p :=
+  GenSchedTx.mq_send_delay_eq sc p
+
+/-- 1500 bytes at 12000 bit/s take one second -/
+example : Gen.Scheduler.send_delay (α := ℚ) { rate := 12000 } 1500 = 1 := by
+  unfold Gen.Scheduler.send_delay
+  norm_num [Num.ofInt_rat, Num.ofNat_rat']
+
 end C12
